@@ -33,7 +33,9 @@ LEVEL_NOTE = ("Trusted: Coq kernel + vm_compute; gen/c19.py (fail-closed transla
               "not proved); half-close by shutdown_write and set_combine_stderr are steps of the model; closed / "
               "EOF-received states are outside it (C22); the set of functions that write a flow-control field or "
               "call a flow-control primitive is enumerated by the translator (any new one aborts); blocking mode is modelled as "
-              "'send not enabled while the window is 0' and exercised by a real multi-threaded transfer.")
+              "'send not enabled while the window is 0' and exercised by a real multi-threaded transfer; lock-release "
+              "switch points of real two-thread runs are enumerated by a deterministic scheduler; the stub transport "
+              "reports any send made while the channel lock is held.")
 TECHNIQUE = "Coq proof (accounting invariant over all interleavings) + AST-generated arithmetic + vm_compute differential correspondence"
 
 U32 = 2 ** 32 - 1
@@ -55,6 +57,7 @@ class Stub:
         self.default_window_size = DEFAULT_WINDOW_SIZE if dw is None else dw
         self.default_max_packet_size = DEFAULT_MAX_PACKET_SIZE if dp is None else dp
         self.sent = []
+        self.under_lock = []
         self.server_object = None
 
     def get_log_channel(self):
@@ -70,6 +73,12 @@ class Stub:
         return Transport._sanitize_packet_size(self, p)
 
     def _send_user_message(self, m):
+        # the real Transport._send_user_message may block (re-key in progress: clear_to_send not set) while the
+        # transport thread needs the channel lock for every WINDOW_ADJUST / EOF / CLOSE it dispatches: calling it
+        # with the channel lock held stalls the connection.  Owner tracking comes from LockProxy.
+        ch = getattr(self, "chan", None)
+        if ch is not None and isinstance(ch.lock, LockProxy) and ch.lock.owner == threading.get_ident():
+            self.under_lock.append(m.asbytes()[0])
         self.sent.append(m.asbytes())
 
     def _unlink_channel(self, chanid):
@@ -77,6 +86,38 @@ class Stub:
 
     def get_exception(self):
         return None
+
+
+class LockProxy:
+    """Wraps Channel.lock (the Condition built on it keeps using the underlying lock, so mutual exclusion is
+    unchanged): records the owning thread, and after a release by the armed thread calls the switch-point hook --
+    the deterministic two-thread scheduler of `run_schedule`."""
+
+    def __init__(self, lock):
+        self._l = lock
+        self.owner = None
+        self.hook = None
+
+    def acquire(self, *a, **k):
+        r = self._l.acquire(*a, **k)
+        if r:
+            self.owner = threading.get_ident()
+        return r
+
+    def release(self):
+        self.owner = None
+        self._l.release()
+        h = self.hook
+        if h is not None:
+            h()
+
+    def locked(self):
+        return self._l.locked()
+
+    __enter__ = acquire
+
+    def __exit__(self, *a):
+        self.release()
 
 
 def parse(raw):
@@ -112,6 +153,8 @@ class Pair:
         self.ch = [Channel(1), Channel(2)]
         for i in (0, 1):
             self.ch[i]._set_transport(self.t[i])
+            self.ch[i].lock = LockProxy(self.ch[i].lock)
+            self.t[i].chan = self.ch[i]
         # receiver halves
         self.ch[1]._set_window(cfg_ab[2], 32768)
         self.ch[0]._set_window(cfg_ba[2], 32768)
@@ -133,6 +176,8 @@ class Pair:
         self.consumed = {False: 0, True: 0}
         self.discarded = {False: 0, True: 0}
         self.eof_msgs = [0, 0]
+        self.fed = {False: 0, True: 0}
+        self.concurrent = False
         self.problems = []
 
     def S(self, d):
@@ -144,6 +189,13 @@ class Pair:
     def collect(self):
         """classify what the channels handed to their transports since the last call"""
         for i in (0, 1):
+            if self.t[i].under_lock:
+                self.problems.append(("send-under-channel-lock",
+                                      "transport._send_user_message was called with the channel lock held (message "
+                                      "type %d): if the transport is re-keying the call blocks and the transport thread, "
+                                      "which needs that lock to dispatch WINDOW_ADJUST / EOF / CLOSE, stalls with it"
+                                      % self.t[i].under_lock[0]))
+                self.t[i].under_lock = []
             for raw in self.t[i].sent:
                 t, chanid, code, n, body = parse(raw)
                 if chanid != self.ch[i].remote_chanid:
@@ -152,15 +204,22 @@ class Pair:
                     d = bool(i)                                             # i is the sender of direction d
                     self.hand_data[d].append((t, code, n, body))
                     self.check_size(d, n)
+                    # oracle: bytes framed so far (on the wire or in a sender's hand) never exceed the initial
+                    # window + adjusts the peer has sent
+                    built = self.emitted[d] + sum(x[2] for x in self.hand_data[d])
+                    if built > self.cfg[d][0] + self.adj_delivered[d]:
+                        self.problems.append(("window-exceeded", "framed %d data bytes with window %d + adjusts %d" % (
+                            built, self.cfg[d][0], self.adj_delivered[d])))
                 elif t == 93:
                     d = not bool(i)                                         # i is the receiver of direction d
                     self.hand_adj[d].append((n, body))
                     # oracle: adjusts computed so far never exceed what the application consumed (+ discarded)
                     granted = self.adj_emitted[d] + sum(x[0] for x in self.hand_adj[d])
-                    if granted > self.consumed[d] + self.discarded[d]:
+                    cons = self.taken(d)
+                    if granted > cons + self.discarded[d]:
                         self.problems.append(("grant-exceeds-consumed",
                                               "window adjustments computed %d > consumed %d + discarded %d" % (
-                                                  granted, self.consumed[d], self.discarded[d])))
+                                                  granted, cons, self.discarded[d])))
                 elif t == 96:
                     # CHANNEL_EOF of a half-close: kept on the wire (delivering it only ends the direction
                     # in which channel i was the sender)
@@ -170,6 +229,12 @@ class Pair:
                 else:
                     self.problems.append(("unexpected-message", "type %d" % t))
             self.t[i].sent = []
+
+    def taken(self, d):
+        """bytes the application has taken out of the receive buffers of direction d (also by a recv call that
+        has not returned yet)"""
+        R = self.R(d)
+        return self.fed[d] - len(R.in_buffer) - len(R.in_stderr_buffer)
 
     def digest(self, d):
         S, R = self.S(d), self.R(d)
@@ -214,10 +279,15 @@ class Pair:
             self.collect()
             new = self.hand_data[d][before:]
             # oracle: the value returned to the application is what was put in the message
-            if ret > 0 and (len(new) != 1 or new[0][2] != ret):
-                self.problems.append(("send-return", "send returned %d but built %r" % (ret, [x[:3] for x in new])))
-            if ret <= 0 and new:
-                self.problems.append(("send-return", "send returned %d but built a message" % ret))
+            if self.concurrent:
+                # another thread's message may have been collected meanwhile
+                if ret > 0 and ret not in [x[2] for x in new]:
+                    self.problems.append(("send-return", "send returned %d but built %r" % (ret, [x[:3] for x in new])))
+            else:
+                if ret > 0 and (len(new) != 1 or new[0][2] != ret):
+                    self.problems.append(("send-return", "send returned %d but built %r" % (ret, [x[:3] for x in new])))
+                if ret <= 0 and new:
+                    self.problems.append(("send-return", "send returned %d but built a message" % ret))
             if ret > n:
                 self.problems.append(("send-return", "send accepted %d of %d bytes" % (ret, n)))
         elif kind == "OEmit":
@@ -233,12 +303,15 @@ class Pair:
                 return -2
             t, code, n, body = self.wire_data[d].pop(0)
             m = Message(body)
+            # accounted before the handler runs (a concurrent op may already see its effect)
+            if t == 95 and code != 1:
+                self.discarded[d] += n
+            else:
+                self.fed[d] += n
             if t == 94:
                 R._feed(m)
             else:
                 R._feed_extended(m)
-                if code != 1:
-                    self.discarded[d] += n
             self.collect()
         elif kind == "ORecv":
             err, n = op[1], op[2]
@@ -257,16 +330,16 @@ class Pair:
             self.wire_adj[d].append(a)
             self.adj_emitted[d] += a[0]
             # oracle: the receiver never grants more than its application consumed (+ discarded data)
-            if self.adj_emitted[d] > self.consumed[d] + self.discarded[d]:
+            if self.adj_emitted[d] > self.taken(d) + self.discarded[d]:
                 self.problems.append(("grant-exceeds-consumed",
                                       "adjusts sent %d > consumed %d + discarded %d" % (
-                                          self.adj_emitted[d], self.consumed[d], self.discarded[d])))
+                                          self.adj_emitted[d], self.taken(d), self.discarded[d])))
         elif kind == "ODeliverAdj":
             if not self.wire_adj[d]:
                 return -2
             n, body = self.wire_adj[d].pop(0)
-            S._window_adjust(Message(body))
             self.adj_delivered[d] += n
+            S._window_adjust(Message(body))
             self.collect()
         elif kind == "OCombine":
             ret = 1 if R.set_combine_stderr(bool(op[1])) else 0
@@ -540,6 +613,120 @@ def directed_oracle(ctx):
                 report_problems(ctx, pair, case)
 
 
+# ---------------------------------------------------------------------------------------------
+# deterministic two-thread schedules: thread 1 is preempted right after its k-th release of a channel lock,
+# thread 2 then runs a whole op, thread 1 resumes.  Every such schedule is an interleaving of critical sections,
+# i.e. one of the op orders the theorems quantify over, so the wire-trace oracles must hold after it.
+
+def run_schedule(pair, a, b, k, watchdog=5.0):
+    """a, b = (direction, op).  Returns None or a (key, what) problem of the schedule itself."""
+    paused, resume, done = threading.Event(), threading.Event(), threading.Event()
+    count = [0]
+    box = {}
+
+    def hook():
+        if threading.get_ident() != box.get("tid") or resume.is_set():
+            return
+        count[0] += 1
+        if count[0] == k:
+            paused.set()
+            resume.wait(watchdog * 3)
+
+    def t1():
+        box["tid"] = threading.get_ident()
+        try:
+            box["ra"] = pair.step(a[0], a[1])
+        except Exception as e:  # noqa
+            box["ea"] = repr(e)
+        finally:
+            done.set()
+            paused.set()
+    for c in pair.ch:
+        c.lock.hook = hook
+    pair.concurrent = True
+    th = threading.Thread(target=t1, daemon=True)
+    th.start()
+    paused.wait(watchdog)
+    problem = None
+    if not done.is_set():
+        # thread 1 sits at its switch point: run the second op to completion
+        st, v = with_watchdog(lambda: pair.step(b[0], b[1]), watchdog)
+        if st == "hang":
+            problem = ("schedule-deadlock", "second thread's %r blocks while the first is between two critical "
+                       "sections of %r" % (b[1], a[1]))
+        elif st == "exc":
+            problem = ("schedule-exception", repr(v))
+        box["preempted"] = True
+    else:
+        pair.step(b[0], b[1])
+    resume.set()
+    th.join(watchdog)
+    for c in pair.ch:
+        c.lock.hook = None
+    pair.concurrent = False
+    if th.is_alive():
+        problem = ("schedule-deadlock", "first thread's %r never finishes" % (a[1],))
+    if "ea" in box:
+        problem = ("schedule-exception", box["ea"])
+    return problem, bool(box.get("preempted"))
+
+
+SCHED_SETUPS = [
+    # (cfg, prefix ops (direction False), pool of concurrent ops)
+    ((32768, 32768, 32768, False),
+     [("OSend", None, 4000), ("OSend", 1, 4000), ("OSend", 3, 4000), ("OEmit", 0), ("OEmit", 0), ("OEmit", 0),
+      ("ODeliver",), ("ODeliver",)],
+     [("ORecv", False, 4000), ("ORecv", True, 4000), ("ODeliver",), ("OCombine", True), ("ORecv", False, 2000),
+      ("ORecv", True, 2000)]),
+    ((3000, 32768, 32768, False),
+     [("OSend", None, 500), ("OEmit", 0), ("ODeliver",), ("ORecv", False, 500)],
+     [("OSend", None, 3000), ("OSend", 1, 3000), ("OSend", None, 1000), ("OSend", 1, 2500), ("OEmit", 0)]),
+    ((5000, 4096, 32768, False),
+     [("OSend", None, 4000), ("OEmit", 0), ("ODeliver",), ("ORecv", False, 4000), ("OEmitAdj", 0)],
+     [("OSend", None, 5000), ("OSend", 1, 5000), ("ODeliverAdj",), ("OSend", None, 1000)]),
+]
+
+
+def do_schedule(setup, ia, ib, k):
+    cfg, prefix, pool = SCHED_SETUPS[setup]
+    pair = Pair(cfg, cfg)
+    for op in prefix:
+        pair.step(False, op)
+    a, b = (False, pool[ia]), (False, pool[ib])
+    problem, preempted = run_schedule(pair, a, b, k)
+    if problem:
+        pair.problems.append(problem)
+    pair.settle(False)
+    S, R = pair.S(False), pair.R(False)
+    if cfg[0] == cfg[2] and S.out_window_size + R.in_window_sofar != cfg[2]:
+        pair.problems.append(("credit-lost", "after the schedule and settling, sender window %d + in_window_sofar %d "
+                              "!= advertised window %d" % (S.out_window_size, R.in_window_sofar, cfg[2])))
+    if S.out_window_size < 0:
+        pair.problems.append(("window-exceeded", "sender window is negative: %d" % S.out_window_size))
+    return pair, preempted
+
+
+def schedules(ctx, setups=None):
+    """all ordered pairs of the pool ops of each setup, switch point after the 1st / 2nd / 3rd lock release"""
+    for si, (cfg, prefix, pool) in enumerate(SCHED_SETUPS):
+        if setups is not None and si not in setups:
+            continue
+        for ia in range(len(pool)):
+            for ib in range(len(pool)):
+                for k in (1, 2, 3):
+                    pair, preempted = do_schedule(si, ia, ib, k)
+                    case = {"sched": True, "setup": si, "cfg": list(cfg), "prefix": [list(o) for o in prefix],
+                            "thread1": list(pool[ia]), "thread2": list(pool[ib]),
+                            "switch_after_lock_release": k}
+                    ctx.count(("sched", si, ia, ib, k), nontrivial=preempted, kind="two-thread-schedule")
+                    for key, what in pair.problems[:2]:
+                        ctx.fail(key, what + " [thread 1 runs %r, is preempted after its release #%d of the channel "
+                                 "lock, thread 2 runs %r, thread 1 resumes]" % (pool[ia], k, pool[ib]),
+                                 case=case, observed=what)
+                    if k > 1 and not preempted:
+                        break       # the op has fewer than k lock releases: larger k is the same sequential run
+
+
 def blocked_senders(ctx, nthreads, adjust, watchdog=6.0):
     """>= 2 threads blocked in _wait_for_send_window on an exhausted window (stdout and stderr writers), then ONE
     window adjustment large enough for all of them: every one must wake up and send.  Deterministic: the adjust is
@@ -595,6 +782,139 @@ def blocked_senders(ctx, nthreads, adjust, watchdog=6.0):
         with ch.lock:
             ch.out_buffer_cv.notify_all()
     return probs, case
+
+
+# ---------------------------------------------------------------------------------------------
+# the real entry points: Transport.open_session(window_size=, max_packet_size=) over an in-memory loopback
+
+def loopback_pair():
+    import os
+    import paramiko
+    from _loop import LoopSocket
+    lg = logging.getLogger("paramiko")
+    if not lg.handlers:
+        lg.addHandler(logging.NullHandler())
+    lg.propagate = False
+
+    class Srv(paramiko.ServerInterface):
+        def check_auth_password(self, u, p):
+            return paramiko.AUTH_SUCCESSFUL
+
+        def check_channel_request(self, k, c):
+            return paramiko.OPEN_SUCCEEDED
+
+        def get_allowed_auths(self, u):
+            return "password"
+    a, b = LoopSocket(), LoopSocket()
+    a.link(b)
+    tc, ts = paramiko.Transport(a), paramiko.Transport(b)
+    key = None
+    for rel in ("tests/_support/rsa.key", "tests/test_rsa.key"):
+        f = os.path.join(common_repo(), rel)
+        if os.path.exists(f):
+            key = paramiko.RSAKey.from_private_key_file(f)
+            break
+    ts.add_server_key(key)
+    ts.start_server(threading.Event(), Srv())
+    tc.connect(username="u", password="p")
+    return tc, ts
+
+
+def common_repo():
+    import common
+    return common.REPO
+
+
+def loopback_case(tc, ts, W, P, n, to_client, watchdog=12.0):
+    """open_session with explicit sizes; move n bytes (server->client when to_client) while the receiver keeps
+    reading.  Returns a list of (key, what)."""
+    from paramiko.common import MIN_WINDOW_SIZE, MIN_PACKET_SIZE, MAX_WINDOW_SIZE
+    probs = []
+    ch = tc.open_session(window_size=W, max_packet_size=P, timeout=watchdog)
+    sch = ts.accept(watchdog)
+    if sch is None:
+        return [("loopback-open", "server never saw the channel")]
+    try:
+        want_w = max(MIN_WINDOW_SIZE, min(tc.default_window_size if W is None else W, MAX_WINDOW_SIZE))
+        want_p = max(MIN_PACKET_SIZE, min(tc.default_max_packet_size if P is None else P, MAX_WINDOW_SIZE))
+        # what the client channel accounts with is what it advertised, and the peer stored exactly that
+        obs = {"client.in_window_size": ch.in_window_size, "client.in_window_threshold": ch.in_window_threshold,
+               "server.out_window_size": sch.out_window_size, "server.out_max_packet_size": sch.out_max_packet_size,
+               "server.in_window_size": sch.in_window_size, "server.in_window_threshold": sch.in_window_threshold,
+               "client.out_window_size": ch.out_window_size}
+        if ch.in_window_size != want_w or sch.out_window_size != want_w or sch.out_max_packet_size != want_p:
+            probs.append(("open-window-mismatch", "open_session(window_size=%r, max_packet_size=%r): expected window %d / "
+                          "packet %d on both ends, observed %r" % (W, P, want_w, want_p, obs)))
+        for name, c in (("client", ch), ("server", sch)):
+            # hypothesis of C20_progress: the ack threshold is below the window the peer was granted
+            if not (0 <= c.in_window_threshold < c.in_window_size) or c.in_window_threshold != c.in_window_size // 10:
+                probs.append(("threshold-not-below-window", "%s channel: in_window_threshold %d, in_window_size %d "
+                              "(open_session(window_size=%r))" % (name, c.in_window_threshold, c.in_window_size, W)))
+        if ch.out_window_size != sch.in_window_size:
+            probs.append(("open-window-mismatch", "client sends against window %d, server accounts %d" % (
+                ch.out_window_size, sch.in_window_size)))
+        snd, rcv = (sch, ch) if to_client else (ch, sch)
+        snd.settimeout(watchdog)
+        rcv.settimeout(0.2)
+        err = []
+
+        def sender():
+            try:
+                snd.sendall(bytes(n))
+            except Exception as e:  # noqa
+                err.append(repr(e))
+        th = threading.Thread(target=sender, daemon=True)
+        th.start()
+        got = 0
+        deadline = time.time() + watchdog
+        while got < n and time.time() < deadline:
+            try:
+                got += len(rcv.recv(65536))
+            except socket.timeout:
+                pass
+        th.join(max(0.1, deadline - time.time()) + 1.0)
+        if got != n or err or th.is_alive():
+            probs.append(("transfer-stalled", "open_session(window_size=%r, max_packet_size=%r): %s received %d of %d "
+                          "bytes while reading continuously for %.0f s (sender window %d, receiver in_window_sofar %d, "
+                          "threshold %d, window %d; sender error %s)" % (
+                              W, P, "client" if to_client else "server", got, n, watchdog, snd.out_window_size,
+                              rcv.in_window_sofar, rcv.in_window_threshold, rcv.in_window_size, err[:1])))
+    finally:
+        try:
+            ch.close()
+            sch.close()
+        except Exception:  # noqa
+            pass
+    return probs
+
+
+def loopback_runs(ctx, ncases):
+    rng = ctx.rng
+    try:
+        tc, ts = loopback_pair()
+    except Exception as e:  # noqa
+        ctx.notes.append("loopback transport pair could not be set up: %r" % (e,))
+        return
+    try:
+        grid = [(32768, 4096), (40000, None), (None, None), (100, 100), (65536, 32768), (200000, 8192)]
+        for j in range(ncases):
+            W, P = grid[j] if j < len(grid) else (rng.randrange(32768, 400000), rng.choice([None, 4096, 20000, 32768]))
+            eff = max(32768, W or 2097152)
+            n = min(3 * eff + rng.randrange(0, 5000), 700000)
+            to_client = j % 4 != 3
+            case = {"loopback": True, "W": W, "P": P, "n": n, "to_client": to_client}
+            probs = loopback_case(tc, ts, W, P, n, to_client)
+            ctx.count(("loopback", W, P, n, to_client), kind="loopback-open_session")
+            for key, what in probs[:2]:
+                ctx.fail(key, what, case=case, observed=what)
+            if probs:
+                break       # a stalled channel may have wedged the pair
+    finally:
+        for t in (tc, ts):
+            try:
+                t.close()
+            except Exception:  # noqa
+                pass
 
 
 def blocked_runs(ctx):
@@ -797,7 +1117,10 @@ def run(ctx):
                 "around window and max_packet-64, out-of-order hand-over, delivery, recv / recv_stderr with sizes "
                 "around the credit threshold, adjust timing, discarded extended types 0 and 3); a model-independent "
                 "directed sweep of request/window/max-packet boundary relations, of discards around the credit "
-                "threshold, and of set_combine_stderr / receiver half-close (shutdown_write) sequences; histories "
+                "threshold, and of set_combine_stderr / receiver half-close (shutdown_write) sequences; deterministic "
+                "two-thread schedules (every ordered pair of concurrent ops, thread 1 preempted after its k-th release "
+                "of the channel lock); real Transport.open_session(window_size=, max_packet_size=) loopback cases; "
+                "histories "
                 "also contain set_combine_stderr(b) and shutdown_write ops; >= 2 senders blocked on an exhausted window woken by one adjust; a history is non-trivial "
                 "when distinct and at least one data byte reached the wire")
     ctx.trusted += ["model coq/Model/C19.v step structure is hand-written; arithmetic is generated (gen/c19.py)",
@@ -810,13 +1133,35 @@ def run(ctx):
     scale = 6 if ctx.thorough else 1
     sanitize_cases(ctx, 100 * scale)
     directed_oracle(ctx)
+    schedules(ctx)
     histories(ctx, 130 * scale, codes=[None, None, None, 1, 1, 0, 3], label="history")
     blocked_runs(ctx)
+    loopback_runs(ctx, 4 * (3 if ctx.thorough else 1))
     live_runs(ctx, 3 * (3 if ctx.thorough else 1))
 
 
 def replay(ctx, rep):
     case = rep["case"]
+    if case.get("sched"):
+        _, _, pool = SCHED_SETUPS[case["setup"]]
+        pair, _ = do_schedule(case["setup"], pool.index(tuple(case["thread1"])), pool.index(tuple(case["thread2"])),
+                              case["switch_after_lock_release"])
+        ctx.count(("replay-sched",))
+        ctx.count(("replay-sched2",))
+        report_problems(ctx, pair, case)
+        return
+    if case.get("loopback"):
+        tc, ts = loopback_pair()
+        try:
+            probs = loopback_case(tc, ts, case["W"], case["P"], case["n"], case["to_client"])
+        finally:
+            tc.close()
+            ts.close()
+        ctx.count(("replay-loopback",))
+        ctx.count(("replay-loopback2",))
+        for key, what in probs[:2]:
+            ctx.fail(key, what, case=case, observed=what)
+        return
     if case.get("blocked"):
         probs, _ = blocked_senders(ctx, case["threads"], case["adjust"])
         ctx.count(("replay-blocked",))
